@@ -75,6 +75,12 @@ def aget (l : List (Row × β)) (k : Row) : Option (Row × β) := l.find? (fun p
 def aremove (l : List (Row × β)) (k : Row) : List (Row × β) := l.filter (fun p => !rowEq p.1 k)
 def aput (l : List (Row × β)) (k : Row) (v : β) : List (Row × β) := (k, v) :: aremove l k
 
+/-- `recordCounts.Get`: the count of a row, 0 when there is no item -/
+def getc (cnt : List (Row × Int)) (y : Row) : Int :=
+  match aget cnt y with
+  | some p => p.2
+  | none => 0
+
 /-! ### Distinct (`distinct.go`, after `fix: DISTINCT propagates errors of its source`) -/
 def distinctOp : Op (List (Row × Int)) where
   init := []
@@ -82,9 +88,7 @@ def distinctOp : Op (List (Row × Int)) where
     match m with
     | .wm _ => (cnt, [], none)                       -- watermarks are dropped
     | .data r =>
-      let c : Int := match aget cnt r.vals with
-        | some p => p.2
-        | none => 0
+      let c := getc cnt r.vals
       let c' := if r.retr then c - 1 else c + 1
       if c' > 0 then
         if !r.retr && c' == 1 then (aput cnt r.vals c', [.data r], none)
